@@ -12,8 +12,29 @@ from .terms import AnalysisError
 MODULES = ["__init__.py", "hashstore.py", "filehashstore.py", "filehashstore_exceptions.py", "hashstoreclient.py"]
 
 
+_ANCHORS = None
+
+
+def anchor_names():
+    """the method names the rules refer to (read off the rule modules' own source: Q("..."), impl("..."), impl_q("..."),
+    api("...") and the entry-point list)"""
+    global _ANCHORS
+    if _ANCHORS is None:
+        import re
+        here = os.path.dirname(os.path.abspath(__file__))
+        names = set()
+        for fn in os.listdir(here):
+            if fn.startswith(("rules_", "engine", "interp", "exprs", "locks")) and fn.endswith(".py"):
+                txt = open(os.path.join(here, fn), encoding="utf-8").read()
+                names |= set(re.findall(r'(?:Q|impl|impl_q|api)\(\s*"(\w+)"', txt))
+                names |= set(re.findall(r'"(?:FileHashStore|Stream|HashStoreParser|HashStoreClient)\.(\w+)"', txt))
+                names |= set(re.findall(r'"(_[a-z]\w+)"', txt))
+        _ANCHORS = names
+    return _ANCHORS
+
+
 class Func:
-    __slots__ = ("qual", "node", "module", "cls", "parent", "is_static", "is_class", "is_ctxmgr")
+    __slots__ = ("qual", "node", "module", "cls", "parent", "is_static", "is_class", "is_ctxmgr", "inherited")
 
     def __init__(self, qual, node, module, cls, parent=None):
         self.qual = qual
@@ -21,6 +42,7 @@ class Func:
         self.module = module
         self.cls = cls
         self.parent = parent
+        self.inherited = False   # registered under a subclass's name (the definition lives in a base class of the package)
         decos = [ast.unparse(d) for d in node.decorator_list]
         self.is_static = "staticmethod" in decos
         self.is_class = "classmethod" in decos
@@ -68,14 +90,19 @@ class Program:
         self.classes: dict[str, ast.ClassDef] = {}
         self.class_module: dict[str, Module] = {}
         h = hashlib.sha256()
+        mods = []
         for fn in sorted(sources):
             src = sources[fn]
             h.update(fn.encode() + b"\0" + src.encode() + b"\0")
             name = fn[:-3]
             m = Module(name, os.path.join(root, fn), src)
             self.modules[name] = m
+            mods.append(m)
+        self._fold_aliases(mods)
+        for m in mods:
             self._index(m)
         self.digest = h.hexdigest()
+        self._inherit()
         self._check_trusted_base()
         self.exc_classes = self._exception_classes()
 
@@ -103,9 +130,59 @@ class Program:
         pre = "" if m.name != "hashstoreclient" else ""
         visit(m.tree.body, pre, None, None)
 
+    def _fold_aliases(self, mods):
+        """`old = new` at class level, where `new` is a method defined in the same class, makes two names for one method (a
+        rename that keeps the former name for existing callers).  The rules know the methods by the names they have on the
+        pinned tree; the program is therefore normalised to the name the rules know: the definition and every attribute
+        reference in the package are read as `old` (the alias assignment disappears).  Nothing else changes."""
+        known = anchor_names()
+        ren = {}
+        for m in mods:
+            for c in [n for n in ast.walk(m.tree) if isinstance(n, ast.ClassDef)]:
+                defs = {st.name for st in c.body if isinstance(st, (ast.FunctionDef, ast.AsyncFunctionDef))}
+                for st in list(c.body):
+                    if isinstance(st, ast.Assign) and len(st.targets) == 1 and isinstance(st.targets[0], ast.Name) and isinstance(st.value, ast.Name) \
+                            and st.value.id in defs and st.targets[0].id not in defs:
+                        old_, new_ = st.targets[0].id, st.value.id
+                        if old_ in known and new_ not in known and new_ not in ren:
+                            ren[new_] = old_
+                            c.body.remove(st)
+        if not ren:
+            return
+        for m in mods:
+            for n in ast.walk(m.tree):
+                if isinstance(n, (ast.FunctionDef, ast.AsyncFunctionDef)) and n.name in ren:
+                    n.name = ren[n.name]
+                elif isinstance(n, ast.Attribute) and n.attr in ren:
+                    n.attr = ren[n.attr]
+        self.folded_aliases = dict(ren)
+
+    def _inherit(self):
+        """methods a class of the package inherits from base classes that are themselves defined in the package (a mixin, a
+        split-off helper class) are methods of that class: registered under its name as well, in MRO order (left to right,
+        depth first - the package has no diamonds), sharing the AST of the definition"""
+        def bases_of(cname, seen=()):
+            c = self.classes.get(cname)
+            out = []
+            for b in (c.bases if c is not None else []):
+                bn = ast.unparse(b).split(".")[-1]
+                if bn in self.classes and bn not in seen and bn != cname:
+                    out.append(bn)
+                    out += [x for x in bases_of(bn, seen + (cname,)) if x not in out]
+            return out
+
+        for cname in list(self.classes):
+            for b in bases_of(cname):
+                for q, f in list(self.funcs.items()):
+                    if f.cls == b and f.parent is None and q == f"{b}.{f.node.name}":
+                        key = f"{cname}.{f.node.name}"
+                        if key not in self.funcs:
+                            self.funcs[key] = Func(key, f.node, f.module, cname, None)
+                            self.funcs[key].inherited = True
+
     def _check_trusted_base(self):
         for m in self.modules.values():
-            if m.name not in ("filehashstore", "hashstore"):
+            if m.name in ("hashstoreclient", "__init__", "filehashstore_exceptions"):
                 continue
             for n in ast.walk(m.tree):
                 if isinstance(n, ast.Call) and isinstance(n.func, ast.Name) and n.func.id in ("exec", "eval", "setattr", "__import__"):
